@@ -4,7 +4,9 @@
 // connection. Oracles: (1) no panic, (2) segmentation invariance of (session?, status/request lines
 // written, bytes handed to the next layer), (3) reference grammar for generator-produced inputs and
 // the one-way implication "session => the bytes are a proper announce + upgrade" for arbitrary
-// ones, (4) read-ahead: what follows the upgrade comes out of the returned connection unchanged.
+// ones, (4) read-ahead: what follows the upgrade comes out of the returned connection unchanged,
+// (5) several handshakes served at the same time in one process: each one ends as it does alone
+// (concurrent_test.go).
 package c06
 
 import (
@@ -26,6 +28,7 @@ import (
 	"math/rand"
 	"net"
 	"net/textproto"
+	"os"
 	"strconv"
 	"strings"
 	"testing"
@@ -59,6 +62,12 @@ type caseDesc struct {
 	Expect    *expect `json:"expect,omitempty"`
 	App       string  `json:"app_hex,omitempty"` // live-tls: bytes sent through the TLS session
 	Pipelined bool    `json:"pipelined,omitempty"`
+	// family "concurrent" (concurrent_test.go): the handshakes of Group are served at the same time
+	Theme   string   `json:"theme,omitempty"`
+	Group   []member `json:"group,omitempty"`
+	Workers int      `json:"workers,omitempty"`
+	Rounds  int      `json:"rounds,omitempty"`
+	Member  *int     `json:"member,omitempty"` // index in Group of the handshake whose outcome differed
 }
 
 type split struct {
@@ -759,6 +768,7 @@ func (h *harness) items() []item {
 	add("client", "live-tls", h.rec.Pick(24, 150))
 	add("server", "websocket", h.rec.Pick(100, 1000))
 	add("client", "websocket", h.rec.Pick(60, 600))
+	add("both", "concurrent", h.rec.Pick(16, 96))
 	// interleave so that every shard gets a bit of everything
 	return it
 }
@@ -903,6 +913,8 @@ func (h *harness) runItem(idx int, it item) {
 		h.liveTLSItem(d, r)
 	case "websocket":
 		h.websocketItem(d, r)
+	case "concurrent":
+		h.concurrentItem(d, r)
 	}
 }
 
@@ -928,6 +940,9 @@ func TestVerifC06(t *testing.T) {
 	for idx, it := range h.items() {
 		if !rec.Mine(idx) {
 			continue
+		}
+		if only := os.Getenv("VERIF_C06_FAMILY"); only != "" && only != it.family {
+			continue // debugging aid: run one input family only
 		}
 		idx, it := idx, it
 		rec.Mark(map[string]interface{}{"role": it.role, "family": it.family, "item": it.k})
@@ -984,6 +999,10 @@ func (h *harness) replay(d caseDesc) {
 	in, _ := hex.DecodeString(d.Input)
 	if d.Family == "oversized" {
 		h.oversized(d)
+		return
+	}
+	if d.Family == "concurrent" {
+		h.concurrentCase(d)
 		return
 	}
 	switch d.Transport {
